@@ -306,7 +306,8 @@ def Node.createResponse (n : Node) (lanSock sock respDst : Addr) (ns : Bool) (id
   let n1 := n.tick
   match pick n1.pref (n1.available sock s) with
   | none =>
-    (n1, [⟨respDst, .introResp ns n1.key ident (Gen.respFields (n1.view s) sock Addr.zero Addr.zero) false⟩])
+    let (il, iw, _) := Gen.introNobody (n1.view s)
+    (n1, [⟨respDst, .introResp ns n1.key ident (Gen.respFields (n1.view s) sock il iw) false⟩])
   | some q =>
     let (il, iw, introduced) := Gen.introAddrs (n1.view s) q.view
     let (pd, pr) := Gen.punctReqSends lanSock sock q.view
@@ -326,7 +327,8 @@ def Node.trackerIntroReq (n : Node) (src : Addr) (key ident : Nat) (pl : IntroRe
   let n1 := ((n.addVerified p).addSvc key s).tick
   match pick n1.pref ((n1.getPeers s).filter (fun q => q.key != key)) with
   | none =>
-    (n1, [⟨src, .introResp false n1.key ident (Gen.respFields (n1.view s) src Addr.zero Addr.zero) false⟩])
+    let (il, iw, _) := Gen.introNobody (n1.view s)
+    (n1, [⟨src, .introResp false n1.key ident (Gen.respFields (n1.view s) src il iw) false⟩])
   | some q =>
     let (il, iw, introduced) := Gen.introAddrs (n1.view s) q.view
     let (pd, pr) := Gen.punctReqSends pl.destination_address src q.view
